@@ -360,8 +360,210 @@ fn run_sync(b: &Bundles<Gen>, sh: &Sh, reqs: &[Req]) -> Sexp {
     list(outs)
 }
 
+// ------------------------------------------------------------------------------------------------
+// handle level: one step = one poll_next of a named AsyncCacheStream / one next() of a named CacheIter
+// (exactly `step` / `cache_step` of coq/theories/Fallback/Cache.v).  Needs fluent_fallback::cache, which
+// is public only under --cfg fluent_rs_verif.
+//
+// case: (c17 hasync K () (r|p ...) (STEP ...))   STEP = c | f        items are 0,1,2.. in script order
+//   output: ((step ...) (drain-step ...) (final ...))
+//     step  = (poll pending|(ready none)|(ready (some i)) (newly-woken ...) polls readies yielded cache-len)
+//           | (fire (newly-woken ...) polls readies yielded cache-len)
+//     drain = fair scheduler of the model: first handle that is not finished and is not waiting-unwoken,
+//             else fire a pending source, else stop; final = per handle (fin|open (items seen))
+// case: (c17 hsync K () (r ...) (i ...))          output: (((next none|(some i) next-calls cache-len) ...) ((seen ...) ...))
+#[cfg(fluent_rs_verif)]
+mod handle {
+    use super::*;
+    use fluent_fallback::cache::{AsyncCache, Cache};
+    use futures::StreamExt;
+
+    pub struct NumStream(pub Sh);
+    impl Stream for NumStream {
+        type Item = usize;
+        fn poll_next(self: Pin<&mut Self>, cx: &mut Context<'_>) -> Poll<Option<usize>> {
+            let mut s = self.0.borrow_mut();
+            s.polls += 1;
+            if s.pos >= s.script.len() {
+                s.readies += 1;
+                return Poll::Ready(None);
+            }
+            if s.script[s.pos] {
+                s.pos += 1;
+                s.readies += 1;
+                s.yielded += 1;
+                let i = s.next_item;
+                s.next_item += 1;
+                Poll::Ready(Some(i))
+            } else {
+                s.waker = Some(cx.waker().clone()); // only the latest waker is kept
+                Poll::Pending
+            }
+        }
+    }
+
+    pub struct NumIter(pub Sh);
+    impl Iterator for NumIter {
+        type Item = usize;
+        fn next(&mut self) -> Option<usize> {
+            let mut s = self.0.borrow_mut();
+            s.polls += 1;
+            if s.pos >= s.script.len() {
+                return None;
+            }
+            s.pos += 1;
+            s.yielded += 1;
+            let i = s.next_item;
+            s.next_item += 1;
+            Some(i)
+        }
+    }
+
+    pub fn run_hasync(k: usize, sh: &Sh, sched: &[Sexp]) -> Sexp {
+        let cache: AsyncCache<NumStream, ()> = AsyncCache::new(NumStream(sh.clone()));
+        let mut handles: Vec<_> = (0..k).map(|_| cache.stream()).collect();
+        let flags = Arc::new(Mutex::new(vec![false; k]));
+        let wakers: Vec<Waker> = (0..k).map(|id| Waker::from(Arc::new(Flag { id, flags: flags.clone() }))).collect();
+        let mut blocked = vec![false; k];
+        let mut fin = vec![false; k];
+        let mut seen: Vec<Vec<Sexp>> = vec![vec![]; k];
+        let counters = |cache: &AsyncCache<NumStream, ()>| {
+            let s = sh.borrow();
+            vec![int(s.polls as i64), int(s.readies as i64), int(s.yielded as i64), int(cache.len() as i64)]
+        };
+        let newly = |before: &[bool]| {
+            let after = flags.lock().unwrap().clone();
+            list((0..after.len()).filter(|i| after[*i] && !before[*i]).map(|i| int(i as i64)).collect())
+        };
+        let mut do_poll = |c: usize, blocked: &mut Vec<bool>, fin: &mut Vec<bool>, seen: &mut Vec<Vec<Sexp>>| -> Sexp {
+            if c >= k {
+                let mut v = vec![sym("poll"), sym("pending"), list(vec![])];
+                v.extend(counters(&cache));
+                return list(v);
+            }
+            flags.lock().unwrap()[c] = false;
+            let before = flags.lock().unwrap().clone();
+            let mut cx = Context::from_waker(&wakers[c]);
+            let p = handles[c].poll_next_unpin(&mut cx);
+            let mut v = vec![sym("poll")];
+            match p {
+                Poll::Pending => {
+                    blocked[c] = true;
+                    v.push(sym("pending"));
+                }
+                Poll::Ready(None) => {
+                    blocked[c] = false;
+                    fin[c] = true;
+                    v.push(list(vec![sym("ready"), sym("none")]));
+                }
+                Poll::Ready(Some(x)) => {
+                    blocked[c] = false;
+                    seen[c].push(int(*x as i64));
+                    v.push(list(vec![sym("ready"), list(vec![sym("some"), int(*x as i64)])]));
+                }
+            }
+            v.push(newly(&before));
+            v.extend(counters(&cache));
+            list(v)
+        };
+        let do_fire = || -> Sexp {
+            let before = flags.lock().unwrap().clone();
+            let w = {
+                let mut s = sh.borrow_mut();
+                if s.waker.is_some() && s.pos < s.script.len() && !s.script[s.pos] {
+                    s.pos += 1;
+                    s.waker.take()
+                } else {
+                    None
+                }
+            };
+            if let Some(w) = w {
+                w.wake();
+            }
+            let mut v = vec![sym("fire"), newly(&before)];
+            v.extend(counters(&cache));
+            list(v)
+        };
+        let mut outs = vec![];
+        for st in sched {
+            match st {
+                Sexp::I(c) => outs.push(do_poll(*c as usize, &mut blocked, &mut fin, &mut seen)),
+                _ => outs.push(do_fire()),
+            }
+        }
+        let mut douts = vec![];
+        let mut budget = 2000;
+        loop {
+            if budget == 0 {
+                douts.push(sym("DRAIN-OVERFLOW"));
+                break;
+            }
+            budget -= 1;
+            let fl = flags.lock().unwrap().clone();
+            let next = (0..k).find(|c| !fin[*c] && (!blocked[*c] || fl[*c]));
+            if let Some(c) = next {
+                let o = do_poll(c, &mut blocked, &mut fin, &mut seen);
+                douts.push(list(vec![int(c as i64), o]));
+            } else if sh.borrow().waker.is_some() {
+                douts.push(list(vec![sym("f"), do_fire()]));
+            } else {
+                break;
+            }
+        }
+        let fin_out: Vec<Sexp> = (0..k)
+            .map(|c| list(vec![sym(if fin[c] { "fin" } else { "open" }), list(seen[c].clone())]))
+            .collect();
+        list(vec![list(outs), list(douts), list(fin_out)])
+    }
+
+    pub fn run_hsync(k: usize, sh: &Sh, sched: &[Sexp]) -> Sexp {
+        let cache: Cache<NumIter, ()> = Cache::new(NumIter(sh.clone()));
+        let mut iters: Vec<_> = (0..k).map(|_| (&cache).into_iter()).collect();
+        let mut seen: Vec<Vec<Sexp>> = vec![vec![]; k];
+        let mut outs = vec![];
+        for st in sched {
+            let i = st.as_int() as usize;
+            let r = if i < k { iters[i].next().copied() } else { None };
+            if let Some(x) = r {
+                seen[i].push(int(x as i64));
+            }
+            outs.push(list(vec![
+                sym("next"),
+                sopt(r.map(|x| int(x as i64))),
+                int(sh.borrow().polls as i64),
+                int(cache.len() as i64),
+            ]));
+        }
+        list(vec![list(outs), list(seen.into_iter().map(list).collect())])
+    }
+}
+
+fn run_handle(case: &[Sexp]) -> Sexp {
+    #[cfg(fluent_rs_verif)]
+    {
+        let k = case[2].as_int() as usize;
+        let sync = case[1].is_sym("hsync");
+        let script: Vec<bool> = case[4].as_list().iter().map(|s| s.is_sym("r")).collect();
+        let script = if sync { script.into_iter().filter(|r| *r).collect() } else { script };
+        let sh: Sh = Rc::new(RefCell::new(Shared { script, pos: 0, next_item: 0, waker: None, polls: 0, readies: 0, yielded: 0 }));
+        if sync {
+            handle::run_hsync(k, &sh, case[5].as_list())
+        } else {
+            handle::run_hasync(k, &sh, case[5].as_list())
+        }
+    }
+    #[cfg(not(fluent_rs_verif))]
+    {
+        let _ = case;
+        list(vec![sym("HARNESS-NO-CACHE-MODULE"), atom("fluent_fallback::cache is private: build with --cfg fluent_rs_verif")])
+    }
+}
+
 fn run(case: &Sexp) -> Sexp {
     let c = case.as_list();
+    if c[1].is_sym("hasync") || c[1].is_sym("hsync") {
+        return run_handle(c);
+    }
     let sync = match c[1].as_str() {
         "sync" => true,
         "async" => false,
